@@ -567,7 +567,22 @@ static void checkConfiguration(World& w, int i, const Op& op, const Obs& before,
 	}
 	if (st.rounds.empty()) {
 		// requests were pending but no guard ran: nothing may have been applied (headed leaves always have guards)
-		if (w02 && !planActivity) { w.checked("C02.no_effect"); if (s.obs.active != before.active) w.violate("C02.no_effect", h.role + ": the active configuration changed although no guard was consulted", i); }
+		if (w02 && !planActivity) {
+			w.checked("C02.no_effect");
+			if (s.obs.active != before.active) {
+				// documented: a request naming an orthogonal region (or the orthogonal root) batched with a request for one of its branches skips the guards
+				std::vector<int> dests; for (auto& q : before.queued) if (q.kind != K_SCHEDULE) dests.push_back(q.dest);
+				for (auto& e : h.trace) if (e.k == EV_ISSUE && e.a != K_SCHEDULE) dests.push_back(e.b);
+				std::string tag;
+				for (int o = 0; o < sh.n && tag.empty(); ++o) {
+					if (!sh.isOrtho(o)) continue;
+					bool whole = false, branch = false;
+					for (int d : dests) { if (d == o || (d >= 0 && d < o && sh.inSubtree(o, d))) whole = true; else if (d > o && sh.inSubtree(d, o)) branch = true; }
+					if (whole && branch) tag = "ortho_partial_guard_forwarding";
+				}
+				w.violate("C02.no_effect", h.role + ": the active configuration changed although no guard was consulted", i, tag);
+			}
+		}
 		return;
 	}
 	if (st.approved.empty()) return;      // C04 covers vetoed steps
@@ -591,6 +606,9 @@ static void checkConfiguration(World& w, int i, const Op& op, const Obs& before,
 	}
 	// scheduling requests issued by guards are applied in a later round that consults nobody
 	for (auto& e : h.trace) if (e.k == EV_ISSUE && e.a == K_SCHEDULE) { Tr t; t.kind = K_SCHEDULE; t.dest = e.b; r.apply(t, 1000); }
+	// ... and scheduling requests of vetoed rounds apply regardless
+	for (auto& rd : st.rounds) for (auto& q : rd.pending) if (q.kind == K_SCHEDULE) r.apply(q, 1000);
+	for (auto& q : before.queued) if (q.kind == K_SCHEDULE) r.apply(q, 1000);
 	uint64_t hh = std::hash<std::string>()(sh.name);
 	for (auto a : before.active) hh = mix64(hh, a);
 	for (auto& q : st.approved) hh = mix64(hh, uint64_t(q.kind) * 64 + uint64_t(q.dest));
@@ -610,8 +628,8 @@ static void checkConfiguration(World& w, int i, const Op& op, const Obs& before,
 		break;
 	}
 	// P2: entered / re-targeted regions picked the sub-state the rules prescribe
-	const bool unknowableDraws = (s.node->caps() & CAP_BUILTIN_RNG) && r.randomResolved > 0;
-	if (!unknowableDraws) for (int g = 0; g < sh.n; ++g) {
+	if ((s.node->caps() & CAP_BUILTIN_RNG) && r.randomResolved > 0) return;   // the built-in generator's draws are not known to the model
+	for (int g = 0; g < sh.n; ++g) {
 		if (!sh.isCompo(g) || r.req[size_t(g)] < 0 || ca.active[size_t(g)] < 0 || r.dontCare[size_t(g)]) continue;
 		if (!r.willBeActive(g) && g != 0) continue;
 		const int how = r.how[size_t(g)];
